@@ -36,3 +36,5 @@ func vxAny(c ...bool) bool
 func vxLock()
 func vxUnlock()
 func vxJitter()
+func vxLibRead(b []byte)
+func vxLibWrite(b []byte)
